@@ -368,6 +368,28 @@ pub fn tx_monitors(h: &Hist, ms: &mut MonState, b: &Obs, line: &str, res: &str, 
                 }
             }
         }
+        // C13: an accepted constant-product deposit with a liquidity tolerance respects it — for a single-asset deposit
+        // the deposit leg is (swapped half, proceeds) into the pool as the internal swap left it
+        if ok && tx.kind == "provide" && tx.args[1] != "-" {
+            if let Some(pb) = pool(b, &tx.args[0]) {
+                if matches!(pb.pool_type, PoolType::ConstantProduct) && pb.assets.len() == 2 && supply_of(b, &tx.args[0]) > 0 {
+                    let d0 = pb.assets[0].denom.clone(); let d1 = pb.assets[1].denom.clone();
+                    if tx.funds.len() >= 2 {
+                        let dx = tx.funds.iter().find(|f| f.0 == d0).map(|f| f.1).unwrap_or(0);
+                        let dy = tx.funds.iter().find(|f| f.0 == d1).map(|f| f.1).unwrap_or(0);
+                        out.push(format!("mon_cp_deposit_tol {} {} {} {} {}", tx.args[1], reserve(pb, &d0), reserve(pb, &d1), dx, dy));
+                    } else if tx.funds.len() == 1 {
+                        let od = tx.funds[0].0.clone();
+                        let half = tx.funds[0].1 / 2;
+                        let (ret, pf, bf) = (attr(h, "return_amount").unwrap_or(0), attr(h, "protocol_fee_amount").unwrap_or(0), attr(h, "burn_fee_amount").unwrap_or(0));
+                        let ad = if od == d0 { d1.clone() } else { d0.clone() };
+                        let (xo, ya) = (reserve(pb, &od) + half, reserve(pb, &ad).saturating_sub(ret + pf + bf));
+                        let (r0, r1, q0, q1) = if od == d0 { (xo, ya, half, ret) } else { (ya, xo, ret, half) };
+                        out.push(format!("mon_cp_deposit_tol {} {} {} {} {}", tx.args[1], r0, r1, q0, q1));
+                    }
+                }
+            }
+        }
         if tx.kind == "withdraw" && tx.funds.len() == 1 {
             if let Some(pb) = pool(b, &tx.args[0]) {
                 let lp = h.w.cd(&pb.lp_denom);
@@ -489,6 +511,22 @@ pub fn tx_monitors(h: &Hist, ms: &mut MonState, b: &Obs, line: &str, res: &str, 
                 out.push(format!("mon_pos_created {} {}", (h.w.n(q.receiver.as_str()) == tx.sender || tx.sender == "pm") as u8, (tx.contract == "pm") as u8));
                 if tx.contract == "pm" && tx.kind == "provide" && tx.funds.len() == 1 {
                     out.push(format!("mon_single_lock {}", (h.w.n(q.receiver.as_str()) == tx.sender) as u8));
+                }
+            }
+        }
+    }
+    // C03: every stableswap pool a route went through: the exact invariant computed from its reported reserves did not decrease
+    if ok && tx.contract == "pm" && tx.kind == "route" {
+        let n: usize = tx.args[0].parse().unwrap_or(0);
+        let mut ids: Vec<String> = (0..n).filter_map(|k| tx.args.get(3 + 3 * k).cloned()).collect();
+        ids.sort(); ids.dedup();
+        for id in ids.iter() {
+            if let (Some(pb), Some(pa)) = (pool(b, id), pool(a, id)) {
+                if !matches!(pb.pool_type, PoolType::ConstantProduct) {
+                    let mut pb2 = pb.clone();
+                    pb2.asset_denoms = pb2.asset_denoms.iter().map(|d| h.w.cd(d)).collect();
+                    let after: Vec<String> = pa.assets.iter().map(|c| c.amount.to_string()).collect();
+                    out.push(format!("mon_ss_pool_d {} {} {}", pool_str(&pb2), after.len(), after.join(" ")));
                 }
             }
         }
